@@ -66,8 +66,13 @@ def main():
         base, dst = make_copy(m["name"])
         try:
             try:
-                apply_edits(dst, m["edits"])
+                apply_edits(dst, m.get("edits", []))
                 apply_sed(dst, m.get("sed", []))
+                if m.get("patch"):
+                    q = subprocess.run(["patch", "-p1", "-s", "-i", os.path.join(HERE, m["patch"])], cwd=dst,
+                                       capture_output=True, text=True)
+                    if q.returncode != 0:
+                        raise ValueError("patch does not apply: %s" % (q.stdout + q.stderr)[:200])
             except ValueError as e:
                 bad += 1
                 print("STALE       %-40s %s" % (m["name"], e))
